@@ -15,7 +15,7 @@ the retired_extents list; a scanned record loses iff the indexed one has a stric
 queues the scanned extent and the replace branch queues the existing extent. Not decided: equality of contents across
 nested recoveries; that repairs touch no live block (value-level).
 """
-DECIDED = ['journal position continuity: decoded (generation, slot) always restored; next = (generation + 1, other slot); advanced only after write + flush', "replay: markers before clear, clear on Ok edge", "post-scan retirement is journalled and fed from retired_extents",
+DECIDED = ['journal image and marker writes of a retirement transaction cover the same chunk (shared with C03.bracket)', 'journal position continuity: decoded (generation, slot) always restored; next = (generation + 1, other slot); advanced only after write + flush', "replay: markers before clear, clear on Ok edge", "post-scan retirement is journalled and fed from retired_extents",
            "winner rule: strict `existing.timestamp > scanned.timestamp` loses; right extent queued on each branch",
            'a marker length is refused only for zero or beyond-device (coalesced chains of any length are accepted)',
            'recovery frees / queues an extent with the on-disk length of that same generation',
@@ -32,7 +32,15 @@ def check_release_len(ctx):
     _c.check_recovery_release_len(ctx, "C04.release-len")
 
 
+def check_bracket(ctx):
+    """recovery's repairs are restartable only if every marker write of a retirement transaction is named by the journal image
+    written before it: journal and marker step of DiskIO::retire_extents receive the same chunk (same rule as C03.bracket)"""
+    from rules import C03
+    C03.check_bracket(ctx, "C04.bracket")
+
+
 def check(ctx):
+    check_bracket(ctx)
     check_marker_accept(ctx)
     check_release_len(ctx)
     inst = "C04.replay"
